@@ -53,6 +53,9 @@ class Contract:
         # behavioural subtyping: every override of this (base-class) method that has no contract of its own is
         # verified against THIS contract (frame included), so a subclass cannot do more than the base promises
         self.check_overrides = kw.pop("check_overrides", False)
+        # exceptions may only come out of callees: a `raise` statement of the function's own body must be unreachable
+        # (unless one of its `raises` entries describes it)
+        self.no_own_raise = kw.pop("no_own_raise", False)
         if kw:
             raise TypeError(f"unknown contract keys {list(kw)} for {key}")
 
